@@ -89,6 +89,22 @@ def obligations(tier, seed):
             obs.append(Ob(id='C08.mod.%s' % tag, prop='C08', group=grp, prelude=pre, wrappers=[wmod], inputs=[(c1, 'a'), (c2, 'b')], body=body, budget=900 if slow_mod else 120,
                           contract='forall a, b != 0 with a*%d in range(%s), b*%d in range(%s): (U1(a) %% U2(b)).in(common unit) == (a*%d) %% (b*%d)'
                                    % (N, c1, D, c2, N, D), functions_under_contract=('au::operator%(Quantity<U1,R1>, Quantity<U2,R2>)',)))
+        if R1 != R2 and not G.REPS[R1]['signed'] != G.REPS[R2]['signed'] and (2147 * N <= G.tmax(R1) or N == 1) and (2147 * D <= G.tmax(R2) or D == 1):
+            # mixed-width %: a restricted family (16 divisors beyond the narrower rep's range, every dividend) that the SAT back ends decide quickly;
+            # bounded stand-in for the thorough-tier obligation above, not counted as proved
+            wide, narrow = (R2, R1) if G.REPS[R2]['bits'] > G.REPS[R1]['bits'] else (R1, R2)
+            base = G.tmax(narrow) // (D if wide == R2 else N) + 1000
+            var = 'b' if wide == R2 else 'a'
+            if wide == R2 and G.REPS[wide]['bits'] > G.REPS[narrow]['bits'] and base * D <= G.tmax(wide) // 4:
+                bodyf = '''
+  ASSUME(%s >= %d && %s <= %d);
+  ASSUME(%s && %s && b != 0);
+  %s m = %s(a, b);
+  CHECK(m == (%s)((%s)%s %% (%s)%s), "remainder-is-raw-remainder-of-exactly-scaled-operands");
+''' % (var, base, var, base + 15, fits(A, R1), fits(B, R2), mt, wmod.name, mt, mt, A, mt, B)
+                obs.append(Ob(id='C08.mod-mixed-family.%s' % tag, prop='C08', group=grp, prelude=pre, wrappers=[wmod], inputs=[(c1, 'a'), (c2, 'b')], body=bodyf, bounded=True,
+                              contract='restricted family: %s in [%d, %d] (scaled value beyond range(%s)), every value of the other operand: mixed-width %% equals the raw %% of the '
+                                       'exactly scaled operands' % (var, base, base + 15, G.ctype(narrow)), functions_under_contract=('au::operator%(Quantity<U1,R1>, Quantity<U2,R2>)',)))
         # --- C++20 three-way comparison agrees with the six operators
         if k % 3 == 0 or tier == 'thorough':
             w3 = Wrapper('w_spaceship_' + tag, 'int32_t', [(c1, 'a'), (c2, 'b')], 'auto c = (%s <=> %s); return c < 0 ? -1 : (c > 0 ? 1 : 0);' % (q1, q2))
